@@ -79,6 +79,41 @@ def _tainted_locals(func):
     return tainted
 
 
+def _doc_only_lists(func, tainted):
+    """Local lists that only ever receive elements under a documentation-option guard:
+    whether they are empty is an option read in disguise."""
+    created = set()
+    for node in ast.walk(func):
+        if isinstance(node, ast.Assign) and len(node.targets) == 1 and isinstance(node.targets[0], ast.Name) \
+                and isinstance(node.value, ast.List) and not node.value.elts:
+            created.add(node.targets[0].id)
+    out = set()
+    for name in created:
+        sites = []
+        escapes = False
+        for node in ast.walk(func):
+            if isinstance(node, ast.Call):
+                fn = pyflow.call_name(node) or ""
+                last = fn.split(".")[-1]
+                if isinstance(node.func, ast.Attribute) and pyflow.is_name(node.func.value, name) and \
+                        last in ("append", "extend", "insert"):
+                    sites.append(node)
+                elif last in ("append_format", "document_stmts") and node.args and pyflow.is_name(node.args[0], name):
+                    sites.append(node)
+                elif any(pyflow.is_name(a, name) for a in node.args) and last not in ("extend", "len", "bool"):
+                    escapes = True          # handed to something that may fill it
+            elif isinstance(node, (ast.Assign, ast.AugAssign)):
+                tg = node.targets if isinstance(node, ast.Assign) else [node.target]
+                if any(pyflow.is_name(t, name) for t in tg) and not (
+                        isinstance(node, ast.Assign) and isinstance(node.value, ast.List) and not node.value.elts):
+                    escapes = True
+        if not sites or escapes:
+            continue
+        if all(any(_reads_opt(t, tainted) for t, pol in pyflow.dominating_tests(n, stop=func)) for n in sites):
+            out.add(name)
+    return out
+
+
 class Classifier(object):
     def __init__(self, repo, modname):
         self.repo = repo
@@ -154,8 +189,31 @@ class Classifier(object):
             for s in st.body + st.orelse:
                 out.extend(self.classify_stmt(s, func, tainted, region_nodes))
             return out
-        if isinstance(st, (ast.Pass, ast.Break, ast.Continue)):
+        if isinstance(st, ast.Pass):
             return [("ok", "control")]
+        if isinstance(st, (ast.Break, ast.Continue)):
+            # leaving a loop (iteration) early under a documentation option is harmless only when
+            # everything the loop does is itself comment-only
+            loop = next((a for a in parent_chain(st) if isinstance(a, (ast.For, ast.While))), None)
+            if loop is None or id(loop) in region_nodes or _inside(loop, region_nodes):
+                return [("ok", "control inside a guarded loop")]
+            res = []
+            for s2 in loop.body + loop.orelse:
+                if id(s2) in region_nodes:
+                    continue
+                if any(n is st for n in ast.walk(s2)):
+                    # the statement holding the guard: classify its other parts
+                    if isinstance(s2, ast.If) and id(s2) not in region_nodes:
+                        for s3 in s2.body + s2.orelse:
+                            if not any(n is st for n in ast.walk(s3)):
+                                res.extend(self.classify_stmt(s3, func, tainted, region_nodes))
+                    continue
+                res.extend(self.classify_stmt(s2, func, tainted, region_nodes))
+            bad = [m for v, m in res if v == "bad"]
+            if bad:
+                return [("bad", "%s under the option guard skips work of the enclosing loop that is not "
+                                "comment-only (%s)" % (type(st).__name__.lower(), bad[0]))]
+            return [("ok", "control; enclosing loop is comment-only")]
         if isinstance(st, ast.Expr) and isinstance(st.value, ast.Call):
             return [self.classify_call(st.value, func, tainted)]
         if isinstance(st, ast.Assign):
@@ -353,10 +411,11 @@ def run(repo, run, tier):
         cl = Classifier(repo, modname)
         for q, func in mod.functions().items():
             tainted = _tainted_locals(func)
+            doclists = _doc_only_lists(func, tainted)
             guards = []
             for node in ast.walk(func):
                 if isinstance(node, ast.If) and enclosing_function(node) is func:
-                    opt = _reads_opt(node.test, tainted)
+                    opt = _reads_opt(node.test, tainted | doclists)
                     if opt:
                         guards.append((node, opt))
             if not guards:
